@@ -1421,9 +1421,13 @@ class ServiceClass:
         try:
             for result in handler:
                 # Ensure we are still associated
-                if (
-                    self.assoc.acse.is_aborted()
-                    or self.assoc.acse.is_release_requested()
+                # Don't use ACSE.is_release_requested() as it consumes the
+                #   A-RELEASE indication the association reactor must answer
+                from pynetdicom.pdu_primitives import A_RELEASE
+
+                primitive = self.assoc.dul.peek_next_pdu()
+                if self.assoc.acse.is_aborted() or (
+                    isinstance(primitive, A_RELEASE) and primitive.result is None
                 ):
                     LOGGER.debug(
                         "A-ABORT or A-RELEASE-RQ received during Q/R sub-operations"
